@@ -30,6 +30,18 @@ CHECKS.update({
     technique="Coq proof + correspondence",
     ref="DESIGN.md section 7 C08"),
 })
+CHECKS.update({
+ "C09": dict(
+    text="Proof (Coq, axiom-free): over every history of SimpleARTMAP fit (any epochs) / partial_fit (any batching), for every A-side kernel and mode, the map's domain is exactly the existing A categories, keys never change value, every presented sample's A category maps to its target (so mapping the stored A labels reproduces the targets), the internal assertion is unreachable (a winning existing category was not vetoed, also under MT~), predictions are the map of the A prediction and classes seen in training. Tied to /repo by the exact correspondence of SimpleARTMAP and ARTMAP (A/B states, map, targets, predict_ab) on contradictory/duplicated labels.",
+    note="Trusted: Coq kernel+vm_compute; hand model + correspondence; total order on the numeric type (hypothesis, holds at R and Q); ARTMAP modelled with max_iter=1; predict_regression checked on the implementation only.",
+    technique="Coq proof (invariant over histories, kernel-abstract) + model/implementation correspondence",
+    ref="DESIGN.md section 7 C09"),
+ "C12": dict(
+    text="Proof (Coq, axiom-free): training a chain of supervised layers yields layers that each satisfy C09's map invariant for all rows and are chained (layer j+1's targets = layer j's A labels); hence labels_deep_ is the targets followed by the A-label columns, samples sharing a finer category share the coarser one, category counts never decrease with depth, map_deep carries stored labels to the top level, and predict's levels are nested. Tied to /repo by the exact correspondence of supervised DeepARTMAP (2-4 levels; fit, partial_fit, re-fit, predict); the tree property is also evaluated on unsupervised DeepARTMAP and SMART on the implementation.",
+    note="Trusted: as C09. Unsupervised mode/SMART: theorems apply through ARTMAP = SimpleARTMAP on B labels (C09 correspondence); their Deep-level run is checked by the implementation-side oracle only.",
+    technique="Coq proof (per-layer invariant + chaining, induction over layers) + correspondence",
+    ref="DESIGN.md section 7 C12"),
+})
 NOT_YET = {}
 def main():
     props = [json.loads(l) for l in open(os.path.join(V, "properties.jsonl"))]
